@@ -28,6 +28,7 @@ LIB = {
     "xpk/xs/__init__.py": "",
     "xpk/xs/xd.py": "DV = 'xpk.xs.xd.DV'\n",
     "xm.py": "TV = 'xm.TV'\n",                    # a top-level module with the same last name as xpk/xm.py
+    "xcopy.py": "CV = 'xcopy.CV'\n",              # a module whose name ends in the letters of the extension
     "xpk/xpk.py": "QV = 'xpk.xpk.QV'\n",          # a module named like the package that contains it
 }
 USE = {"fn": "%s()", "Cl": "%s.tag", "XV": "%s", "helper": "%s()"}
@@ -56,7 +57,7 @@ OPS = []
 for elem in ("fn", "Cl", "XV"):
     for dest in ("xb.py", "xpk/xm.py", "xpk/xs/xd.py", "xpk/__init__.py"):
         OPS.append(("G", elem, dest))
-OPS += [("G", "fn", "xm.py"), ("R", "xpk/xpk.py", "xn2"), ("M", "xpk/xpk.py", "xpk/xs")]
+OPS += [("G", "fn", "xcopy.py"), ("G", "XV", "xcopy.py"), ("G", "fn", "xm.py"), ("R", "xpk/xpk.py", "xn2"), ("M", "xpk/xpk.py", "xpk/xs")]
 OPS += [("M", "xa.py", "xpk"), ("M", "xa.py", "xpk/xs"), ("M", "xpk/xm.py", ""), ("M", "xpk/xm.py", "xpk/xs"), ("M", "xpk/xs", ""),
         ("R", "xa.py", "xz"), ("R", "xpk/xm.py", "xn"), ("R", "xpk", "xq"), ("R", "xpk/xs", "xt"), ("P", "xa.py")]
 
@@ -138,17 +139,22 @@ OWN_LIB = {
 }
 OWN_STYLES = [("from . import xutil", "xutil.U"), ("from .. import xutil as up", "up.U"), ("from .xutil import U", "U"), ("from ..xutil import U as U2", "U2"),
               ("from ..xm import MV", "MV"), ("from .. import xm", "xm.MV"), ("import xpk.xutil", "xpk.xutil.U"), ("from xpk.xs import xutil as ax", "ax.U"),
-              ("from . import xe", "xe.EV")]
+              ("from . import xe", "xe.EV"),
+              # the module refers to itself by its absolute name (used lazily, inside a function the clients call)
+              ("import xpk.xs.xd", None)]
 OWN_OPS = [("P", "xpk/xs/xd.py"), ("M", "xpk/xs/xd.py", ""), ("M", "xpk/xs/xd.py", "xpk"), ("R", "xpk/xs/xd.py", "xn")]
 
 
 def own_files(block):
     stmts = [OWN_STYLES[i] for i in block]
-    src = "\n".join(s for s, _ in stmts) + "\n\nDV = 'xpk.xs.xd.DV'\n" + "".join("print(%r, %s)\n" % (r, r) for _, r in stmts)
+    selfref = any(r is None for _, r in stmts)
+    src = "\n".join(s for s, _ in stmts) + "\n\nDV = 'xpk.xs.xd.DV'\n" + "".join("print(%r, %s)\n" % (r, r) for _, r in stmts if r is not None)
+    if selfref:
+        src += "\n\ndef selfref():\n    return xpk.xs.xd.DV\n"
     files = dict(OWN_LIB)
     files["xpk/xs/xd.py"] = src
-    files["xc.py"] = "import xpk.xs.xd\n\nprint(xpk.xs.xd.DV)\n"
-    files["xpk/xs/xc2.py"] = "from . import xd\n\nprint(xd.DV)\n"
+    files["xc.py"] = "import xpk.xs.xd\n\nprint(xpk.xs.xd.DV)\n" + ("print(xpk.xs.xd.selfref())\n" if selfref else "")
+    files["xpk/xs/xc2.py"] = "from . import xd\n\nprint(xd.DV)\n" + ("print(xd.selfref())\n" if selfref else "")
     return files
 
 
@@ -183,7 +189,7 @@ def client_source(stmts):
 class C05(Check):
     pid = "C05"
     level = "exploration"
-    rule = ("cases = (operation in 25 (incl. a destination whose last name equals a package module's, and a module named like its package): MoveGlobal of a function/class/variable to a flat module, a package module, a nested "
+    rule = ("cases = (operation in 27 (incl. a destination whose last name equals a package module's, and a module named like its package): MoveGlobal of a function/class/variable to a flat module, a package module, a nested "
             "package module and a package __init__; MoveModule of a module/package into and out of packages; Rename of a module, "
             "a package module, a package, a sub-package; ModuleToPackage) x client location {root, package, sub-package} x client "
             "import block {every import style of the moved thing, every ordered pair of styles, every style followed/preceded by "
